@@ -14,6 +14,13 @@ Proved:
 * `all_seeds_nodup` — all block seeds of a program are pairwise distinct (no stream is used twice);
 * `same_generator_names_distinct`, `unseeded_names_distinct` — separate constructions get distinct names
   (distinct keys ⇒ each keeps its own draw when computed together, C13);
+* `names_nodup`, `successive_identical_calls_distinct`, `history_names_nodup` — ONE generator object used for a whole
+  history of calls (distributions, `choice`, interleaved `permutation`s; state threaded explicitly through `runHist`):
+  all array names are pairwise distinct, in particular for the same call repeated with identical arguments;
+  `perm_positions_nodup` — successive `permutation`s consume different parts of the generator's own stream;
+  `rs_names_nodup` — the same for one `RandomState`;
+* `entropy_only_name_collides` — refutation witness: naming the array after the children's entropy only (they all
+  share the parent's) gives identical successive calls the same name although their seeds differ;
 * `rs_windows_nodup` — the same for `RandomState` windows of `random_state_data`;
 * `choice_no_replace_single_chunk` — the guard makes multi-chunk `replace=False` unreachable.
 Not expressible / not proved: statistical independence of the streams; injectivity of `SeedSequence → state`
@@ -204,5 +211,188 @@ theorem choice_multi_chunk_rejected (n : Nat) (h : 1 < n) : choiceGuard false n 
 /-- non-vacuity: three constructions with 2, 3 and 1 blocks from a generator that already spawned 4 children -/
 example : ((runCalls ⟨7, [], 4⟩ [⟨0, 2, 0⟩, ⟨1, 3, 1⟩, ⟨0, 1, 0⟩]).1.map fun r => r.1.map (·.spawnKey))
     = [[[4], [5]], [[6], [7], [8]], [[9]]] := by decide
+
+
+/-! ### one generator, many calls -/
+
+theorem runCalls_mem_seeds (g : SeedSeq) (cs : List Call) :
+    ∀ r ∈ (runCalls g cs).1, r.2.seeds = r.1 ∧ ∀ s ∈ r.1, s ∈ allSeeds (runCalls g cs).1 := by
+  induction cs generalizing g with
+  | nil => intro r hr; simp [runCalls] at hr
+  | cons c cs ih =>
+    intro r hr
+    simp only [runCalls, wrapCall, spawn_eq, List.mem_cons] at hr
+    simp only [runCalls, wrapCall, spawn_eq, allSeeds, List.map_cons, List.flatten_cons, List.mem_append]
+    rcases hr with rfl | hr
+    · exact ⟨rfl, fun s hs => Or.inl hs⟩
+    · obtain ⟨h1, h2⟩ := ih _ r hr
+      exact ⟨h1, fun s hs => Or.inr (h2 s hs)⟩
+
+/-- **names_nodup**: the names of ALL constructions made from one generator (each with at least one block) are
+    pairwise distinct — whatever the functions and arguments, in particular for identical successive calls. -/
+theorem names_nodup (g : SeedSeq) (cs : List Call) (h : ∀ c ∈ cs, 0 < c.nblocks) :
+    ((runCalls g cs).1.map (·.2)).Nodup := by
+  induction cs generalizing g with
+  | nil => simp [runCalls]
+  | cons c cs ih =>
+    have hc : 0 < c.nblocks := h c (List.mem_cons_self)
+    have ih' := ih { g with nChildren := g.nChildren + c.nblocks } (fun c' hc' => h c' (List.mem_cons_of_mem _ hc'))
+    simp only [runCalls, wrapCall, spawn_eq, List.map_cons, List.nodup_cons]
+    refine ⟨?_, ih'⟩
+    intro hmem
+    obtain ⟨r, hr, hrn⟩ := List.mem_map.mp hmem
+    obtain ⟨h1, h2⟩ := runCalls_mem_seeds _ cs r hr
+    have hs : r.1 = (List.range c.nblocks).map (child g) := by
+      rw [← h1, hrn]
+    have h0 : child g 0 ∈ r.1 := by
+      rw [hs]; exact List.mem_map.mpr ⟨0, List.mem_range.mpr hc, rfl⟩
+    have := h2 _ h0
+    rw [(allSeeds_runCalls _ cs).1] at this
+    obtain ⟨i, _, hi⟩ := List.mem_map.mp this
+    rw [child_shift] at hi
+    have := child_injective g hi
+    omega
+
+/-- **successive_identical_calls_distinct**: the same call (same function, same arguments) made `n` times in a row
+    on one generator gives `n` pairwise distinct names. -/
+theorem successive_identical_calls_distinct (g : SeedSeq) (c : Call) (n : Nat) (hc : 0 < c.nblocks) :
+    ((runCalls g (List.replicate n c)).1.map (·.2)).Nodup :=
+  names_nodup g _ (fun c' hc' => by rw [List.eq_of_mem_replicate hc']; exact hc)
+
+/-- the spawn bookkeeping of a history is that of its calls: `permutation` does not touch the SeedSequence -/
+theorem runHist_calls (g : Gen) (os : List Op) :
+    histNames (runHist g os).1 = (runCalls g.ss (callsOf os)).1.map (·.2) ∧
+    (runHist g os).2.ss = (runCalls g.ss (callsOf os)).2 := by
+  induction os generalizing g with
+  | nil => simp [runHist, histNames, callsOf, runCalls]
+  | cons o os ih =>
+    cases o with
+    | call c =>
+      obtain ⟨i1, i2⟩ := ih { g with ss := (wrapCall g.ss c).2 }
+      simp only [runHist, stepGen, histNames, callsOf, runCalls, List.map_cons]
+      exact ⟨by rw [i1], by rw [i2]⟩
+    | perm =>
+      obtain ⟨i1, i2⟩ := ih { g with draws := g.draws + 1 }
+      simp only [runHist, stepGen, histNames, callsOf]
+      exact ⟨i1, i2⟩
+
+/-- **history_names_nodup**: in any history of calls on ONE generator object (distributions, `choice`, interleaved
+    `permutation`s) all array names are pairwise distinct. -/
+theorem history_names_nodup (g : Gen) (os : List Op) (h : ∀ c ∈ callsOf os, 0 < c.nblocks) :
+    (histNames (runHist g os).1).Nodup := by
+  rw [(runHist_calls g os).1]
+  exact names_nodup g.ss _ h
+
+theorem permPositions_runHist (g : Gen) (os : List Op) :
+    ∀ p ∈ permPositions (runHist g os).1, g.draws ≤ p := by
+  induction os generalizing g with
+  | nil => intro p hp; simp [runHist, permPositions] at hp
+  | cons o os ih =>
+    intro p hp
+    cases o with
+    | call c =>
+      simp only [runHist, stepGen, permPositions] at hp
+      have := ih _ p hp
+      simpa using this
+    | perm =>
+      simp only [runHist, stepGen, permPositions, List.mem_cons] at hp
+      rcases hp with rfl | hp
+      · exact Nat.le_refl _
+      · have := ih _ p hp
+        simp only at this
+        omega
+
+/-- **perm_positions_nodup**: successive `permutation` calls on one generator consume different parts of its stream. -/
+theorem perm_positions_nodup (g : Gen) (os : List Op) : (permPositions (runHist g os).1).Nodup := by
+  induction os generalizing g with
+  | nil => simp [runHist, permPositions]
+  | cons o os ih =>
+    cases o with
+    | call c =>
+      simp only [runHist, stepGen, permPositions]
+      exact ih _
+    | perm =>
+      simp only [runHist, stepGen, permPositions, List.nodup_cons]
+      refine ⟨?_, ih _⟩
+      intro hm
+      have := permPositions_runHist _ os _ hm
+      simp only at this
+      omega
+
+/-- `firstIndex` of a duplicate-free list is `0, 1, 2, …`: what the driver reports for a history -/
+theorem firstIndex_of_nodup {α : Type} [DecidableEq α] (xs : List α) (h : xs.Nodup) :
+    firstIndex xs = List.range xs.length := by
+  apply List.ext_getElem
+  · simp [firstIndex]
+  · intro i h1 h2
+    simp only [firstIndex, List.getElem_map, List.getElem_range]
+    exact List.Nodup.idxOf_getElem h i _
+
+/-! ### RandomState -/
+
+theorem histRS_windows (s : RS) (cs : List Call) :
+    (histRS s cs).1.map (·.1) = (runCallsRS s cs).1 ∧ (histRS s cs).2 = (runCallsRS s cs).2 ∧
+    ∀ r ∈ (histRS s cs).1, r.2.windows = r.1 := by
+  induction cs generalizing s with
+  | nil => simp [histRS, runCallsRS]
+  | cons c cs ih =>
+    obtain ⟨i1, i2, i3⟩ := ih (stateData s c.nblocks).2
+    simp only [histRS, runCallsRS, List.map_cons]
+    refine ⟨by rw [i1], i2, ?_⟩
+    intro r hr
+    rcases List.mem_cons.mp hr with rfl | hr
+    · rfl
+    · exact i3 r hr
+
+/-- **rs_names_nodup**: the same for one `RandomState`: every construction reads fresh windows, so names differ. -/
+theorem rs_names_nodup (s : RS) (cs : List Call) (h : ∀ c ∈ cs, 0 < c.nblocks) :
+    ((histRS s cs).1.map (·.2)).Nodup := by
+  induction cs generalizing s with
+  | nil => simp [histRS]
+  | cons c cs ih =>
+    have hc : 0 < c.nblocks := h c (List.mem_cons_self)
+    have ih' := ih (stateData s c.nblocks).2 (fun c' hc' => h c' (List.mem_cons_of_mem _ hc'))
+    simp only [histRS, List.map_cons, List.nodup_cons]
+    refine ⟨?_, ih'⟩
+    intro hmem
+    obtain ⟨r, hr, hrn⟩ := List.mem_map.mp hmem
+    obtain ⟨i1, _, i3⟩ := histRS_windows (stateData s c.nblocks).2 cs
+    have hw : r.1 = (stateData s c.nblocks).1 := by rw [← i3 r hr, hrn]
+    have h0 : (s.seed, s.pos + 0) ∈ r.1 := by
+      rw [hw]; exact List.mem_map.mpr ⟨0, List.mem_range.mpr hc, rfl⟩
+    have hin : (s.seed, s.pos + 0) ∈ allWindows (runCallsRS (stateData s c.nblocks).2 cs).1 := by
+      rw [← i1]
+      exact List.mem_flatten.mpr ⟨r.1, List.mem_map.mpr ⟨r, hr, rfl⟩, h0⟩
+    rw [(allWindows_runCallsRS _ cs).1] at hin
+    obtain ⟨i, _, hi⟩ := List.mem_map.mp hin
+    simp only [stateData, Prod.mk.injEq, true_and] at hi
+    omega
+
+/-! ### the refuted variant: naming the array after the children's ENTROPY only -/
+
+/-- `name = tokenize([child._seed_seq.entropy for child in bitgens], size, chunks, …)`: children of one
+    SeedSequence share the parent's entropy, so this name forgets which children were spawned. -/
+def wrapCallEntropyName (g : SeedSeq) (c : Call) : (List SeedSeq × Name) × SeedSeq :=
+  let (kids, g') := spawn g c.nblocks
+  ((kids, ⟨c.func, kids.map fun k => ⟨k.entropy, [], 0⟩, c.params⟩), g')
+
+/-- **entropy_only_name_collides**: with that naming, two identical successive calls on one generator get the SAME
+    name although they embed different seeds — the property `same_generator_names_distinct` fails. -/
+theorem entropy_only_name_collides (g : SeedSeq) (c : Call) :
+    (wrapCallEntropyName g c).1.2 = (wrapCallEntropyName (wrapCallEntropyName g c).2 c).1.2 ∧
+    (0 < c.nblocks → (wrapCallEntropyName g c).1.1 ≠ (wrapCallEntropyName (wrapCallEntropyName g c).2 c).1.1) := by
+  constructor
+  · simp [wrapCallEntropyName, spawn_eq, child]
+  · intro hc h
+    simp only [wrapCallEntropyName, spawn_eq] at h
+    have h0 := congrArg (fun l => l[0]?) h
+    simp only [List.getElem?_map, List.getElem?_range hc, Option.map_some, Option.some.injEq] at h0
+    rw [child_shift] at h0
+    have := child_injective g h0
+    omega
+
+/-- non-vacuity: `normal, permutation, choice, choice, permutation` on a fresh generator -/
+example : (runHist ⟨⟨7, [], 0⟩, 0⟩ [.call ⟨0, 2, 0⟩, .perm, .call ⟨1, 1, 5⟩, .call ⟨1, 1, 5⟩, .perm]).1.map
+    (fun | .arr s _ => s.map (·.spawnKey) | .perm p => [[100 + p]]) = [[[0], [1]], [[100]], [[2]], [[3]], [[101]]] := by decide
 
 end Dask.C28
